@@ -348,5 +348,6 @@ func runR_C18(c *Ctx) {
 	// value-only / ordered-traversal rules and the sort plugin's order rules are part of this property's mechanism
 	hashCoreRules(c, false)
 	sortLessRules(c)
+	compareCoreRules(c)
 	c.Rep.floor("R15", 30)
 }
